@@ -100,6 +100,48 @@ Proof.
   apply (prims_preserve_FlagInv l g g' (J_WF idf idf_inj s g HJ C) HF O Er).
 Qed.
 
+(* ---- the hypotheses of the target-change theorem follow from the invariant and the coupling ---- *)
+Lemma LabelsUnique_cpl s g : J s -> coupled idf s g -> LabelsUnique g.
+Proof.
+  intros [HI _] C f1 f2 H1 H2 _ _ E. rewrite (cp_files idf s g C) in H1, H2.
+  apply in_map_iff in H1. apply in_map_iff in H2. destruct H1 as [r1 [<- Hr1]]. destruct H2 as [r2 [<- Hr2]].
+  cbn [f_label file_of] in E. f_equal.
+  eapply NoDup_map_inj; [apply (rw_fnodup _ _ _ _ _ (inv_rw _ HI)) | exact Hr1 | exact Hr2 | exact E].
+Qed.
+
+Lemma out_state_not_static st : out_state st = true -> mem_N (fstate_code st) static_file_states = false.
+Proof. destruct st; intros H; try discriminate H; reflexivity. Qed.
+
+Lemma OutInv_cpl s g : J s -> coupled idf s g -> OutInv g.
+Proof.
+  intros [HI [HT HA]] C d x f Hd Hx Hf Hdet.
+  pose proof (inv_nw _ HI) as HW. pose proof (inv_rw _ HI) as Hrw.
+  destruct (dep_cpl idf s g d C Hd) as [d0 [Hd0 ->]]. cbn [d_src d_snk dep_of] in *.
+  destruct (find_file_cpl_key idf s g _ f C Hf) as [r [Hr [-> Hk]]].
+  unfold fk in Hk. apply idf_inj in Hk.
+  (* the source of the edge is a step *)
+  pose proof (dw_kinds _ _ (inv_dw _ HI) d0 Hd0) as Hkind. rewrite Hk in Hkind.
+  destruct (dsrc d0) as [[] l0] eqn:Es; cbn in Hkind; try discriminate.
+  2:{ exfalso. pose proof (dw_src _ _ (inv_dw _ HI) d0 Hd0) as Hs. rewrite Es in Hs.
+      apply in_map_iff in Hs. destruct Hs as [n [Hn1 Hn2]]. apply (HT n Hn2). rewrite Hn1. reflexivity. }
+  (* the file node is attached, hence has a creator *)
+  assert (Hkn : In (KFile, fl r) (KL (nodes s))) by (apply (rw_files _ _ _ _ _ Hrw); apply in_map; exact Hr).
+  apply findn_some_in in Hkn. destruct Hkn as [nx Hnx].
+  cbn [f_detached file_of] in Hdet. unfold node_det, is_detached, find_node in Hdet.
+  fold (findn (KFile, fl r) (nodes s)) in Hdet. rewrite Hnx in Hdet.
+  destruct (findn_In _ _ _ Hnx) as [Hin Hnk].
+  assert (Hnr : nk nx <> root_key) by (rewrite Hnk; discriminate).
+  pose proof (nw_local _ HW nx Hin Hnr) as L. unfold local_ok in L.
+  destruct (ncre nx) as [c|] eqn:Ec; [|congruence].
+  destruct (inv_oe _ HI d0 l0 (fl r) Hd0 Es Hk nx c Hnx Ec) as [Hcs [r' [Hr' Hout]]]. subst c.
+  assert (r' = r).
+  { pose proof (In_findf (files s) r (rw_fnodup _ _ _ _ _ Hrw) Hr) as E. unfold findf in *. congruence. }
+  subst r'. split.
+  - cbn [f_creator file_of]. unfold node_cre, creator_of, find_node. fold (findn (KFile, fl r) (nodes s)).
+    rewrite Hnx, Ec. cbn. reflexivity.
+  - cbn [f_state file_of]. apply out_state_not_static. exact Hout.
+Qed.
+
 (* ---- reachable states of the combined machine ---- *)
 Inductive reach : st -> graph -> Prop :=
 | reach_start s g : minv s g -> reach s g
@@ -121,16 +163,15 @@ Inductive reach : st -> graph -> Prop :=
 | reach_revert s g s' : reach s g -> FWF g ->
     coupled idf s' (fst (revert_optional g)) -> J s' -> reach s' (fst (revert_optional g))
 (* a new director run with other targets: Scheduler.initialize + Workflow.reconcile_targets.  The stored workflow
-   does not change (only flags and the temp tables do); FlagInv is PROVED (SchedReconcile.reconcile_sound) under
-   two hypotheses on the snapshot that the correspondence evaluates on every real reconcile *)
-| reach_targets s g ts tds thr : reach s g -> LabelsUnique g -> OutInv g ->
-    reach s (reconcile (set_targets g ts tds thr)).
+   does not change (only flags and the temp tables do); FlagInv is PROVED (SchedReconcile.reconcile_sound); its two
+   hypotheses on the snapshot follow from the invariant and the coupling (LabelsUnique_cpl, OutInv_cpl) *)
+| reach_targets s g ts tds thr : reach s g -> reach s (reconcile (set_targets g ts tds thr)).
 
 Lemma reach_minv s g : reach s g -> minv s g.
 Proof.
   induction 1 as [s g H | a o s g s' l g' _ IH Hp E Er | a o s g s' l g' _ IH E Er O C' HJ'
                   | l s g s' g' _ IH Er O C' HJ' | s g g' _ IH E
-                  | s g s' _ IH Hfw C' HJ' | s g ts tds thr _ IH Hl Ho].
+                  | s g s' _ IH Hfw C' HJ' | s g ts tds thr _ IH].
   - exact H.
   - destruct (op_preserving_correct a o s g s' l IH Hp E) as [g2 [Er2 [_ H2]]]. congruence.
   - eapply op_certified_correct; eassumption.
@@ -141,7 +182,8 @@ Proof.
   - destruct IH as [HJ [C HF]]. split; [exact HJ|]. split.
     + apply (same_skel_coupled idf s g _ C). unfold reconcile, reconcile_with.
       eapply same_skel_trans; [|apply same_skel_flag_keys]. repeat split.
-    + apply reconcile_sound; [reflexivity | apply (J_WF idf idf_inj s g HJ C) | exact Hl | exact Ho | exact HF].
+    + apply reconcile_sound; [reflexivity | apply (J_WF idf idf_inj s g HJ C) | apply (LabelsUnique_cpl s g HJ C)
+                              | apply (OutInv_cpl s g HJ C) | exact HF].
 Qed.
 
 Theorem cached_equals_spec_at_every_decision s g : reach s g ->
